@@ -38,7 +38,33 @@ def nthreads(mode, flows):
             n += 1
         elif f.startswith('G'):
             n += int(f[1:])
+        elif f.startswith('X:'):
+            for d in f[2:].split(','):
+                if d[0] != 'f':
+                    n += 1 if d[1] == 'T' else 0
+                    break
+        elif f.startswith('K:'):
+            for d in f[2:].split(','):
+                if d[0] != 'f':
+                    v = int(d[1:])
+                    n += (v - 1) if v > 0 else 1
     return n
+
+
+def gen_flow(rng, mode):
+    """one flow token; a third of the flows carry several guarded input dependencies"""
+    if rng.chance(2, 3):
+        return rng.choice(KINDS_COUNTER if mode == 'counter' else KINDS_MASK)
+    nd = rng.range(1, 4)
+    if rng.chance(2, 3):   # data flow: at least one applicable dep
+        while True:
+            deps = [rng.choice('ntf') + rng.choice('TL') for _ in range(nd)]
+            if any(d[0] != 'f' for d in deps):
+                return 'X:' + ','.join(deps)
+    if mode == 'mask':     # control flow under masks: at most one applicable dep, no gather
+        k = rng.range(-1, nd - 1)
+        return 'K:' + ','.join((rng.choice('nt') if i == k else 'f') + '0' for i in range(nd))
+    return 'K:' + ','.join(rng.choice('ntf') + str(rng.choice([0, 0, 1, 2, 3])) for _ in range(nd))
 
 
 def gen_cases(ctx):
@@ -47,6 +73,7 @@ def gen_cases(ctx):
     k = 0
     # exhaustive schedules for small configurations
     small = [('counter', ['D']), ('counter', ['D', 'D']), ('counter', ['D', 'C1', 'L']), ('counter', ['G2', 'CN']), ('counter', ['D', 'G2']),
+             ('mask', ['X:fL,tT,nL', 'D']), ('mask', ['X:tT,nL', 'X:nL,tT', 'K:f0,n0']), ('counter', ['X:fT,tT,nL', 'K:t0,f2,n3']),
              ('mask', ['D']), ('mask', ['D', 'C1']), ('mask', ['L', 'D', 'W', 'C1']), ('mask', ['D', 'D', 'C1'])]
     if not ctx.quick:
         small += [('counter', ['D', 'D', 'G2']), ('mask', ['D', 'D', 'C1', 'D', 'CN'])]
@@ -55,7 +82,7 @@ def gen_cases(ctx):
     for _ in range(300 if ctx.quick else 6000):
         mode = rng.choice(['counter', 'mask'])
         while True:
-            fl = [rng.choice(KINDS_COUNTER if mode == 'counter' else KINDS_MASK) for _ in range(rng.range(1, 7))]
+            fl = [gen_flow(rng, mode) for _ in range(rng.range(1, 7))]
             n = nthreads(mode, fl)
             if 1 <= n <= 8:
                 break
